@@ -32,9 +32,12 @@ BoundAt(e, i, h) == CASE e.cls = "pinhole" -> PinBound(e.coef, e.q[i], e.sigma[i
                       [] e.cls = "slitL" -> LBound(e.coef, e.q[i], e.L, h)
                       [] e.cls = "slitW" -> WBound(e.coef, e.q[i], e.W, h)
                       [] e.cls = "slitLW" -> LWBound(e.coef, e.q[i], e.L, e.W, h)
-WinLoAt(e, i) == CASE e.cls = "pinhole" -> PinLo(e.q[i], e.sigma[i])
-                   [] e.cls = "slitL" -> e.q[i]
-                   [] OTHER -> FSub(e.q[i], e.W)
+\* (width only with q < W: the window of |q+v| starts at zero; the positive grid must start within
+\* one step of it)
+WinLoAt(e, i, h) == CASE e.cls = "pinhole" -> PinLo(e.q[i], e.sigma[i])
+                      [] e.cls = "slitL" -> e.q[i]
+                      [] e.cls = "slitW" -> FMax(FSub(e.q[i], e.W), FMul(h, Fudge))
+                      [] OTHER -> FSub(e.q[i], e.W)
 WinHiAt(e, i) == CASE e.cls = "pinhole" -> PinHi(e.q[i], e.sigma[i])
                    [] e.cls = "slitL" -> Hyp(e.q[i], e.L)
                    [] e.cls = "slitW" -> FAdd(e.q[i], e.W)
@@ -45,7 +48,7 @@ ApplyLadder(e) ==
         R == Len(e.rungs)
         want == [i \in 1..n |-> ExpectAt(e, i)]
         gridok(r) == /\ FLeq(e.rungs[r].maxstep, FMul(e.rungs[r].h, Fudge))
-                     /\ \A i \in 1..n : FLeq(e.rungs[r].first, WinLoAt(e, i)) /\ FLeq(WinHiAt(e, i), e.rungs[r].last)
+                     /\ \A i \in 1..n : FLeq(e.rungs[r].first, WinLoAt(e, i, e.rungs[r].h)) /\ FLeq(WinHiAt(e, i), e.rungs[r].last)
                      /\ Len(e.rungs[r].out) = n
         ratio(r, i) == Ratio(e.rungs[r].out[i], want[i], BoundAt(e, i, e.rungs[r].h))
         worst == RMax([x \in 1..(R * n) |-> ratio(((x - 1) \div n) + 1, ((x - 1) % n) + 1)])
